@@ -74,9 +74,10 @@ class Resolver:
             w.fire("resolve_empty")
             return []
         out = []
-        for fam, addr in res:
+        for fam, addr, *rest in res:
             if fam == 6:
-                out.append((_socket.AF_INET6, _socket.SOCK_STREAM, _socket.IPPROTO_TCP, "", (addr, port, 0, 0)))
+                # (a link-local answer carries its interface as the scope id, the 4th sockaddr field)
+                out.append((_socket.AF_INET6, _socket.SOCK_STREAM, _socket.IPPROTO_TCP, "", (addr, port, 0, rest[0] if rest else 0)))
             elif fam == 4:
                 out.append((_socket.AF_INET, _socket.SOCK_STREAM, _socket.IPPROTO_TCP, "", (addr, port)))
             else:
